@@ -33,7 +33,7 @@ RULE = (
     "with centre != 0, MolGrid of 1-3 atoms, UniformGrid 2-D/3-D, Tensor1DGrids 2-D/3-D, AngularGrid of 4 methods; "
     "PeriodicGrid for selection only) plus a history of 1..10 steps interpreted against the object and a model: query "
     "(centre random / a grid point / near a grid point / far away; radius 0, 1e-12, moderate, between the k-th and "
-    "(k+1)-th neighbour distance, 1e6, 1e200, inf), reassign points (translate/scale/permute/affine/far, same shape) and "
+    "(k+1)-th neighbour distance, 1e6, 1e200, inf), reassign points (translate/scale/permute/affine/far, same shape; by plain or by augmented assignment) and "
     "weights (scale/permute/fresh) where a setter exists, selection by int / NumPy integer / negative int / slice / index "
     "array / boolean mask where supported, optionally continuing the history on the selected grid; non-trivial = the "
     "history holds at least one compared query or selection and (a query after a reassignment, or an empty ball, or "
@@ -384,7 +384,25 @@ def body(case, ctx):
             if kind not in HAS_POINT_SETTER:
                 continue
             newP = _new_points(step, P)
-            g.points = newP.copy()
+            if step.get("how") == "augmented" and step["mode"] != "permute":
+                # augmented assignment is a reassignment too: Python reads the property, modifies that very
+                # array in place and hands the same object back to the setter
+                flat = P.ndim == 1
+                d = 1 if flat else P.shape[1]
+                t = np.array(step["t"], dtype=float)[:d]
+                t = t[0] if flat else t
+                if step["mode"] == "translate":
+                    g.points += t
+                elif step["mode"] == "far":
+                    g.points += 50.0 * (1 + np.abs(t))
+                elif step["mode"] == "scale":
+                    g.points *= float(step["s"])
+                else:
+                    g.points *= float(step["s"])
+                    g.points += t
+                ctx.cls("setp-augmented-assignment")
+            else:
+                g.points = newP.copy()
             P = newP
             reassigned_p = True
             if tree_built:
@@ -523,6 +541,7 @@ def _setp_step():
         {
             "op": st.just("setp"),
             "mode": st.sampled_from(["translate", "scale", "permute", "affine", "far"]),
+            "how": st.sampled_from(["assign", "assign", "augmented"]),
             "t": st.lists(_f(-3.0, 3.0), min_size=3, max_size=3),
             "s": st.one_of(_f(0.5, 2.0), _f(-2.0, -0.5)),
             "seed": st.integers(0, 2**31 - 1),
